@@ -1,1 +1,2 @@
 import CheetahModel.Properties.C03
+import CheetahModel.Properties.C02
